@@ -69,7 +69,16 @@ func (c *Ctx) AssertionsGuarded(prop string) {
 						}
 					}
 				}
-				same := func(v ssa.Value) bool { return v == x || sameValue(v, x) }
+				// a parameter captured by a closure lives in a cell: a load of the cell is the parameter
+				norm := func(v ssa.Value) ssa.Value {
+					if u, isLoad := v.(*ssa.UnOp); isLoad {
+						if inner, ok := an.ResolveCell(u.X); ok {
+							return inner
+						}
+					}
+					return v
+				}
+				same := func(v ssa.Value) bool { return v == x || sameValue(v, x) || norm(v) == norm(x) }
 				target := ssa.Instruction(ta)
 				kinds := map[string]bool{} // the outcomes of the Type() tests that let the assertion through
 				cut, path := an.Cut(an.CutQuery{From: an.Entry(fn), Target: func(i ssa.Instruction) bool { return i == target },
